@@ -6,22 +6,32 @@ import PEval.Gen.KStatus
 `PEval.Gen.K.labelCorrect / resultCorrect / status .tree`: the REAL methods of `DynamicObjectWithPerceptionResult` run
 on a symbolic result (ground truth possibly `None`, the four matching attributes possibly `None`, their values possibly
 `None`, label compatibility one atom, threshold possibly `None`) for every member of `MatchingMode`; the real
-`is_better_than` of the attribute's class runs inside. Results: Boolean / AssertionError / the pair of statuses.
+`is_better_than` of the attribute's class runs inside. Results: Boolean / rejected / the pair of statuses.
+
+Pinned / open. C03: "A TP always has a label-compatible ground truth whose pass/fail score beats the threshold configured
+for that ground truth's label"; C08: "a result that is a TP at some matching threshold is still a TP at every looser
+threshold (larger distance, smaller IoU)". Neither text says what the kernels do with an IoU threshold outside [0, 1]
+(today `is_better_than` asserts; a maintainer may validate in `get_status`, elsewhere, or not at all), so the per-run
+obligations of `is_result_correct` and `get_status` are stated for the valuations avoiding `forbIoU`; in-quantifier
+predicate `thrOk m thr` (no threshold, or one on the mode's scale; `valAP_consistent`). The pass/fail model (plane
+distance) is inside for every threshold (`valPF_consistent`). `is_label_correct` reads no threshold: pinned everywhere.
 -/
 namespace PEval.KernelStatus
 open PEval PEval.DT PEval.MatchKernels
 
 /-- THE per-run obligations -/
 theorem labelCorrect_table_check : tableOk [] Gen.K.labelCorrect.tree labelCorrectTree = true := by decide +kernel
-theorem resultCorrect_table_check : tableOk [] Gen.K.resultCorrect.tree resultCorrectTree = true := by decide +kernel
-theorem status_table_check : tableOk [] Gen.K.status.tree statusTree = true := by decide +kernel
+theorem resultCorrect_table_check : tableOk forbIoU Gen.K.resultCorrect.tree resultCorrectTree = true := by decide +kernel
+theorem status_table_check : tableOk forbIoU Gen.K.status.tree statusTree = true := by decide +kernel
 
 theorem labelCorrect_code_table_eq_model : ∀ t, Gen.K.labelCorrect.tree = some t → ∀ v : Val, eval t v = labelCorrectAtoms v :=
   fun t ht v => tableOk_sound labelCorrect_table_check t ht v (consistent_nil v)
-theorem resultCorrect_code_table_eq_model : ∀ t, Gen.K.resultCorrect.tree = some t → ∀ v : Val, eval t v = resultCorrectAtoms v :=
-  fun t ht v => tableOk_sound resultCorrect_table_check t ht v (consistent_nil v)
-theorem status_code_table_eq_model : ∀ t, Gen.K.status.tree = some t → ∀ v : Val, eval t v = statusAtoms v :=
-  fun t ht v => tableOk_sound status_table_check t ht v (consistent_nil v)
+theorem resultCorrect_code_table_eq_model : ∀ t, Gen.K.resultCorrect.tree = some t →
+    ∀ v : Val, consistent forbIoU v = true → eval t v = resultCorrectAtoms v :=
+  fun t ht v hv => tableOk_sound resultCorrect_table_check t ht v hv
+theorem status_code_table_eq_model : ∀ t, Gen.K.status.tree = some t →
+    ∀ v : Val, consistent forbIoU v = true → eval t v = statusAtoms v :=
+  fun t ht v hv => tableOk_sound status_table_check t ht v hv
 
 /-- bridges (all inputs): the metrics model (`PEval.AP`, four modes, method possibly absent) -/
 theorem resultCorrect_eq_skeleton (m : AP.Mode) (thr : Option Rat) (r : AP.Res) :
@@ -42,27 +52,27 @@ theorem labelCorrect_code_table_eq_isLabelCorrect :
   rw [labelCorrect_code_table_eq_model t ht]; exact labelCorrect_bridge_AP m thr r
 
 theorem resultCorrect_code_table_eq_isResultCorrect :
-    ∀ t, Gen.K.resultCorrect.tree = some t → ∀ (m : AP.Mode) (thr : Option Rat) (r : AP.Res),
+    ∀ t, Gen.K.resultCorrect.tree = some t → ∀ (m : AP.Mode) (thr : Option Rat) (r : AP.Res), thrOk m thr →
       eval t (valAP m thr r) = ofBool (AP.isResultCorrect m thr r) := by
-  intro t ht m thr r
-  rw [resultCorrect_code_table_eq_model t ht]; exact resultCorrect_bridge_AP m thr r
+  intro t ht m thr r hv
+  rw [resultCorrect_code_table_eq_model t ht _ (valAP_consistent m thr r hv)]; exact resultCorrect_bridge_AP m thr r
 
 theorem status_code_table_eq_getStatus :
-    ∀ t, Gen.K.status.tree = some t → ∀ (m : AP.Mode) (thr : Option Rat) (r : AP.Res),
+    ∀ t, Gen.K.status.tree = some t → ∀ (m : AP.Mode) (thr : Option Rat) (r : AP.Res), thrOk m thr →
       eval t (valAP m thr r) = ofStatusAP (AP.getStatus m thr r) := by
-  intro t ht m thr r
-  rw [status_code_table_eq_model t ht]; exact status_bridge_AP m thr r
+  intro t ht m thr r hv
+  rw [status_code_table_eq_model t ht _ (valAP_consistent m thr r hv)]; exact status_bridge_AP m thr r
 
 theorem resultCorrect_code_table_eq_passfail :
     ∀ t, Gen.K.resultCorrect.tree = some t → ∀ r : PassFail.Res, eval t (valPF r) = .ret (PassFail.isResultCorrect r) := by
   intro t ht r
-  rw [resultCorrect_code_table_eq_model t ht]; exact resultCorrect_bridge_PF r
+  rw [resultCorrect_code_table_eq_model t ht _ (valPF_consistent r)]; exact resultCorrect_bridge_PF r
 
 theorem status_code_table_eq_passfail :
     ∀ t, Gen.K.status.tree = some t → ∀ r : PassFail.Res,
       eval t (valPF r) = .other (statusCodePF (PassFail.getStatus r)) := by
   intro t ht r
-  rw [status_code_table_eq_model t ht]; exact status_bridge_PF r
+  rw [status_code_table_eq_model t ht _ (valPF_consistent r)]; exact status_bridge_PF r
 
 /-- for the code's table (C03): the statuses form one of the five documented pairs; an estimate is TP only together with
 its ground truth, and then the label is compatible and (there is no threshold or) the score beats it -/
@@ -104,6 +114,14 @@ example : ∀ t, Gen.K.status.tree = some t →
       = .other sFpFn := by
   intro t ht
   simp only [status_code_table_eq_passfail t ht]
+  decide +kernel
+
+/-- non-vacuity of the in-quantifier predicate `thrOk` and of the restricted corollaries: an IoU result at threshold 1/2 -/
+example : ∀ t, Gen.K.status.tree = some t →
+    eval t (valAP .iou3d (some (1/2)) { id := 0, conf := 1, label := 2, gt := some ⟨0, 2⟩, score := .val (some (3/4)), hw := 1, policy := .default })
+      = .other sTpTp := by
+  intro t ht
+  rw [status_code_table_eq_getStatus t ht _ _ _ (thrOk_some (by decide +kernel))]
   decide +kernel
 
 end PEval.KernelStatus
